@@ -944,6 +944,45 @@ func family(faceMode, maxLen int) fw.Family {
 	}
 }
 
+// paragraphFamily: a first line, an explicit newline, 0..2 spaces, and a paragraph of 4 or 5 words
+// that wraps in the narrower boxes (the strings of the main families are too short for a wrapped
+// paragraph after a newline).
+func paragraphFamily(faceMode int) fw.Family {
+	const a, sp, v, nl, fi = 0, 1, 2, 3, 4
+	firsts := [][]int{{a}, {a, sp, v}}
+	paras := [][]int{{a, sp, v, sp, fi, sp, a}, {v, a, sp, fi, sp, a, a, sp, v, sp, a}, {fi, sp, a, sp, a, v, sp, fi, sp, v}}
+	build := func(i int64) []int {
+		d := []int{int(i) % len(firsts), int(i) / len(firsts) % 3, int(i) / len(firsts) / 3}
+		toks := append([]int{}, firsts[d[0]]...)
+		toks = append(toks, nl)
+		for k := 0; k < d[1]; k++ {
+			toks = append(toks, sp)
+		}
+		return append(toks, paras[d[2]]...)
+	}
+	return fw.Family{
+		Name: "first line, newline, 0..2 spaces, a paragraph of 4 or 5 words that wraps x " + faceLabels[faceMode], N: int64(len(firsts) * 3 * len(paras)),
+		Check: func(i int64, r *fw.R) {
+			loadFonts()
+			if fontErr != nil {
+				panic(fontErr)
+			}
+			toks := build(i)
+			r.NontrivialIdx()
+			readShaped(toks, faceMode)
+			for _, w := range boxWidths {
+				for _, h := range haligns {
+					CheckLayout(r, toks, config{faceMode: faceMode, width: w, halign: h})
+				}
+			}
+		},
+		Desc: func(i int64) string {
+			toks := build(i)
+			return fmtTokens(toks) + " features=" + features(toks)
+		},
+	}
+}
+
 // punctFamily: strings over {a, space, . , ; : ! ) A}: sentence, colon, semicolon and comma spacing
 // of justified text (the space after a punctuation mark stretches by its own factor), closing
 // brackets and capitals before the mark.
@@ -1080,7 +1119,7 @@ func families(tier string) []fw.Family {
 		fs = append(fs, verticalFamily(2, n-1, true))
 	}
 	fs = append(fs, verticalFamily(3, n-1, true))
-	fs = append(fs, breaksFamily(), textLineFamily(), punctFamily(0, n+1), punctFamily(1, n+1))
+	fs = append(fs, breaksFamily(), textLineFamily(), punctFamily(0, n+1), punctFamily(1, n+1), paragraphFamily(0), paragraphFamily(1))
 	if only := os.Getenv("C16_ONLY"); only != "" { // development aid
 		var sel []fw.Family
 		for _, f := range fs {
